@@ -21,9 +21,15 @@ type freqCase struct {
 	N     int    `json:"n,omitempty"`   // alphabet size for equal/geo
 	Total int    `json:"total,omitempty"`
 	LogSc int    `json:"log_scale"`
+	// Short: the histogram is passed as slices of exactly N entries (symbols 0..N-1 all present),
+	// the way the Huffman encoder calls the function when it re-scales code lengths
+	Short bool `json:"short_slices,omitempty"`
 }
 
 func (f freqCase) String() string {
+	if f.Short {
+		return fmt.Sprintf("%s|%v|%v|%d|%d|%d|%d|%d|%d|%d|short", f.Kind, f.Pos, f.Cnt, f.K, f.M, f.R, f.Rho, f.N, f.Total, f.LogSc)
+	}
 	return fmt.Sprintf("%s|%v|%v|%d|%d|%d|%d|%d|%d|%d", f.Kind, f.Pos, f.Cnt, f.K, f.M, f.R, f.Rho, f.N, f.Total, f.LogSc)
 }
 
@@ -84,6 +90,50 @@ var famFreq = NewFamily("C16.normalize", func(fc freqCase) (*Fail, bool) {
 	if present > scale || present == 0 {
 		return nil, false // no valid table exists: outside the property
 	}
+	if fc.Short {
+		// compact form: entry i = count of the i-th present symbol; slices of exactly `present` entries
+		cf := make([]int, 0, 256)
+		for _, v := range h {
+			if v != 0 {
+				cf = append(cf, v)
+			}
+		}
+		orig := append([]int{}, cf...)
+		ca := make([]int, len(cf))
+		var n int
+		var err error
+		if p := func() (p any) {
+			defer func() { p = recover() }()
+			n, err = entropy.NormalizeFrequencies(cf, ca, total, scale)
+			return nil
+		}(); p != nil {
+			return failf("panic-with-short-slices", "NormalizeFrequencies(freqs[:%d], alphabet[:%d], total=%d, scale=%d) panicked: %v", len(orig), len(orig), total, scale, p), true
+		}
+		if err != nil {
+			return failf("error-returned", "short slices: total=%d scale=%d: %v", total, scale, err), true
+		}
+		sum := 0
+		for i, v := range cf {
+			sum += v
+			if v <= 0 {
+				return failf("present-symbol-lost", "short slices: entry %d had count %d, scaled to %d (scale %d total %d)", i, orig[i], v, scale, total), true
+			}
+			if i < n && ca[i] != i {
+				return failf("alphabet-wrong", "short slices: alphabet[%d]=%d", i, ca[i]), true
+			}
+		}
+		if n != len(cf) {
+			return failf("return-count", "short slices: returned alphabet size %d, present symbols %d", n, len(cf)), true
+		}
+		if sum != scale {
+			fp := "sum<scale"
+			if sum > scale {
+				fp = "sum>scale"
+			}
+			return failf(fp, "short slices: table sums to %d, scale %d (present %d, total %d)", sum, scale, present, total), true
+		}
+		return nil, present >= 2
+	}
 	freqs := make([]int, 256)
 	copy(freqs, h[:])
 	alphabet := make([]int, 256)
@@ -129,7 +179,7 @@ var famFreq = NewFamily("C16.normalize", func(fc freqCase) (*Fail, bool) {
 
 func init() {
 	register("C16", "exploration", func(c *Ctx) {
-		c.Rule("exhaustive grids: (a) every histogram over 2..4 present symbols with counts 1..Cmax at two symbol placements; (b) k rare symbols of count r + m dominant symbols of count r*rho for every k in 0..255, m in 1..16, both scan orders; (c) 'all equal' and geometric families for every alphabet size 1..256 x 12 totals; each x every scale 2^8..2^16. A case is non-trivial when >=2 symbols are present, a table exists (present <= scale) and the shortcut total==scale is not taken; distinct = distinct generator parameters")
+		c.Rule("exhaustive grids: (a) every histogram over 2..4 present symbols with counts 1..Cmax at two symbol placements; (b) k rare symbols of count r + m dominant symbols of count r*rho for every k in 0..255, m in 1..16, both scan orders; (c) 'all equal' and geometric families for every alphabet size 1..256 x 12 totals + total == scale, each also passed as slices of exactly N entries (the form the Huffman encoder uses); each x every scale 2^8..2^16. A case is non-trivial when >=2 symbols are present, a table exists (present <= scale) and the shortcut total==scale is not taken; distinct = distinct generator parameters")
 		cmax := pick(c, 10, 14)
 		famFreq.Each(c, 0, func(emit func(freqCase)) {
 			placements := [][]int{{0, 1, 2, 255}, {7, 100, 200, 254}}
@@ -175,6 +225,13 @@ func init() {
 						}
 						emit(freqCase{Kind: "equal", N: n, Total: tot, LogSc: ls})
 						emit(freqCase{Kind: "geo", N: n, Total: tot, LogSc: ls})
+						emit(freqCase{Kind: "equal", N: n, Total: tot, LogSc: ls, Short: true})
+						emit(freqCase{Kind: "geo", N: n, Total: tot, LogSc: ls, Short: true})
+						if tot != 1<<uint(ls) && n <= 1<<uint(ls) {
+							// total == scale exactly (the function's shortcut)
+							emit(freqCase{Kind: "equal", N: n, Total: 1 << uint(ls), LogSc: ls, Short: true})
+							emit(freqCase{Kind: "equal", N: n, Total: 1 << uint(ls), LogSc: ls})
+						}
 					}
 				}
 			}
